@@ -9,6 +9,29 @@ set_option linter.unusedSectionVars false
 
 variable {L X α : Type} [Field α] [LinearOrder α] [IsStrictOrderedRing α]
 
+/-! ### the loop, one kind of iteration at a time -/
+
+theorem loop_noLearner (eps : α) (pat ntrain nvalid : Nat) (st : LoopSt L α) (rest : List (RoundEv L α)) :
+    loop eps pat ntrain nvalid st (.noLearner :: rest) = st := by
+  simp [loop, step]
+
+theorem loop_scaleFail (eps : α) (pat ntrain nvalid : Nat) (st : LoopSt L α) (w : L) (rest : List (RoundEv L α)) :
+    loop eps pat ntrain nvalid st (.scaleFail w :: rest) = { st with learners := st.learners ++ [w] } := by
+  simp [loop, step]
+
+theorem loop_fitted (eps : α) (pat ntrain nvalid : Nat) (st : LoopSt L α) (w : L) (t v : α) (rest : List (RoundEv L α)) :
+    loop eps pat ntrain nvalid st (.fitted w t v :: rest) =
+      if (done eps pat st.es { train := t, valid := v, n := (st.learners ++ [w]).length, ntrain := ntrain, nvalid := nvalid,
+                               idx := (st.learners ++ [w]).length + 1 }).2 then
+        { learners := st.learners ++ [w],
+          es := (done eps pat st.es { train := t, valid := v, n := (st.learners ++ [w]).length, ntrain := ntrain,
+                                      nvalid := nvalid, idx := (st.learners ++ [w]).length + 1 }).1 }
+      else loop eps pat ntrain nvalid
+        { learners := st.learners ++ [w],
+          es := (done eps pat st.es { train := t, valid := v, n := (st.learners ++ [w]).length, ntrain := ntrain,
+                                      nvalid := nvalid, idx := (st.learners ++ [w]).length + 1 }).1 } rest := by
+  rfl
+
 /-- invariant of the round loop: the recorded round never exceeds the number of learners, the learners only grow by
     what the iterations append, and (once some call was recorded) the recorded tensor is the one of the call made
     with exactly `round` learners -/
@@ -22,12 +45,13 @@ theorem loop_inv (eps : α) (pat ntrain nvalid : Nat) (evs : List (RoundEv L α)
   | cons ev rest ih =>
     intro st h
     cases ev with
-    | noLearner => exact ⟨h, ⟨0, by simp [loop]⟩, fun x => x⟩
+    | noLearner => rw [loop_noLearner]; exact ⟨h, ⟨0, by simp⟩, fun x => x⟩
     | scaleFail w =>
-      refine ⟨?_, ⟨1, by simp [loop, learnersOf]⟩, fun x => x⟩
-      simp only [loop, List.length_append, List.length_singleton]; omega
+      rw [loop_scaleFail]
+      refine ⟨?_, ⟨1, by simp [learnersOf]⟩, fun x => x⟩
+      simp only [List.length_append, List.length_singleton]; omega
     | fitted w t v =>
-      simp only [loop]
+      rw [loop_fitted]
       generalize hc : ({ train := t, valid := v, n := (st.learners ++ [w]).length, ntrain := ntrain, nvalid := nvalid,
                          idx := (st.learners ++ [w]).length + 1 } : Call α) = c
       have hcn : c.n = (st.learners ++ [w]).length := by rw [← hc]
@@ -75,6 +99,196 @@ theorem fitLoop_inv (eps : α) (pat ntrain nvalid maxRounds : Nat) (vmax train0 
   · obtain ⟨i1, ⟨k, i2⟩, i3⟩ := loop_inv eps pat ntrain nvalid (evs.take maxRounds)
       { learners := ([] : List L), es := (done eps pat (init vmax) c).1 } h0
     exact ⟨i1, ⟨k, by simpa using i2⟩, fun hv => i3 (hs hv)⟩
+
+/-! ### the loop and the history of monitor calls it makes -/
+
+theorem callsMade_fitted (eps : α) (pat ntrain nvalid : Nat) (st : LoopSt L α) (w : L) (t v : α) (rest : List (RoundEv L α)) :
+    callsMade eps pat ntrain nvalid st (.fitted w t v :: rest) =
+      ({ train := t, valid := v, n := (st.learners ++ [w]).length, ntrain := ntrain, nvalid := nvalid,
+         idx := (st.learners ++ [w]).length + 1 } : Call α) ::
+      (if (done eps pat st.es { train := t, valid := v, n := (st.learners ++ [w]).length, ntrain := ntrain, nvalid := nvalid, idx := (st.learners ++ [w]).length + 1 }).2 then []
+       else callsMade eps pat ntrain nvalid
+        { learners := st.learners ++ [w],
+          es := (done eps pat st.es { train := t, valid := v, n := (st.learners ++ [w]).length, ntrain := ntrain, nvalid := nvalid, idx := (st.learners ++ [w]).length + 1 }).1 } rest) := by
+  rfl
+
+/-- the monitor after the loop is the monitor before it driven over the calls the loop made; the `j`-th of them
+    (`j = 0, 1, …`) sees `|learners| + j + 1` learners, names its tensor one higher and carries the fold's sample counts;
+    every call but the last one answered `false` -/
+theorem loop_calls (eps : α) (pat ntrain nvalid : Nat) (evs : List (RoundEv L α)) :
+    ∀ st : LoopSt L α,
+      (loop eps pat ntrain nvalid st evs).es = stateAfter eps pat st.es (callsMade eps pat ntrain nvalid st evs) ∧
+      (∀ pre c post, callsMade eps pat ntrain nvalid st evs = pre ++ c :: post →
+        c.n = st.learners.length + pre.length + 1 ∧ c.idx = c.n + 1 ∧ c.ntrain = ntrain ∧ c.nvalid = nvalid ∧
+        (post ≠ [] → (done eps pat (stateAfter eps pat st.es pre) c).2 = false)) := by
+  induction evs with
+  | nil => intro st; exact ⟨rfl, fun pre c post h => by simp [callsMade] at h⟩
+  | cons ev rest ih =>
+    intro st
+    cases ev with
+    | noLearner => rw [loop_noLearner]; exact ⟨rfl, fun pre c post h => by simp [callsMade] at h⟩
+    | scaleFail w => rw [loop_scaleFail]; exact ⟨rfl, fun pre c post h => by simp [callsMade] at h⟩
+    | fitted w t v =>
+      rw [loop_fitted, callsMade_fitted]
+      generalize hc : ({ train := t, valid := v, n := (st.learners ++ [w]).length, ntrain := ntrain, nvalid := nvalid,
+                         idx := (st.learners ++ [w]).length + 1 } : Call α) = c
+      have hcn : c.n = st.learners.length + 1 := by rw [← hc]; simp
+      have hci : c.idx = c.n + 1 := by rw [← hc]
+      have hct : c.ntrain = ntrain := by rw [← hc]
+      have hcv : c.nvalid = nvalid := by rw [← hc]
+      by_cases hd : (done eps pat st.es c).2 = true
+      · rw [if_pos hd, if_pos hd]
+        refine ⟨rfl, ?_⟩
+        intro pre d post h
+        rcases pre with _ | ⟨p, pre⟩
+        · simp only [List.nil_append, List.cons.injEq] at h
+          obtain ⟨h1, h2⟩ := h
+          subst h1; subst h2
+          exact ⟨by simpa using hcn, hci, hct, hcv, fun hne => absurd rfl hne⟩
+        · simp at h
+      · rw [if_neg hd, if_neg hd]
+        obtain ⟨i1, i2⟩ := ih { learners := st.learners ++ [w], es := (done eps pat st.es c).1 }
+        refine ⟨by rw [i1]; rfl, ?_⟩
+        intro pre d post h
+        rcases pre with _ | ⟨p, pre⟩
+        · simp only [List.nil_append, List.cons.injEq] at h
+          obtain ⟨h1, _⟩ := h
+          subst h1
+          exact ⟨by simpa using hcn, hci, hct, hcv, fun _ => by simpa [stateAfter] using hd⟩
+        · simp only [List.cons_append, List.cons.injEq] at h
+          obtain ⟨h1, h2⟩ := h
+          subst h1
+          obtain ⟨j1, j2, j3, j4, j5⟩ := i2 pre d post h2
+          refine ⟨?_, j2, j3, j4, ?_⟩
+          · rw [j1]; dsimp only; simp only [List.length_append, List.length_cons, List.length_nil]; omega
+          · intro hne; exact j5 hne
+
+/-- the monitor at `result.done` is a fresh monitor driven over `fitCalls`; these calls are numbered `0, 1, 2, …` by the
+    learners they see (`FitNumbered`), and every call but the last one answered `false` -/
+theorem fitLoop_calls (eps : α) (pat ntrain nvalid maxRounds : Nat) (vmax train0 valid0 : α) (evs : List (RoundEv L α)) :
+    (fitLoop eps pat ntrain nvalid maxRounds vmax train0 valid0 evs).es =
+      stateAfter eps pat (init vmax) (fitCalls eps pat ntrain nvalid maxRounds vmax train0 valid0 evs) ∧
+    (∀ pre c post, fitCalls eps pat ntrain nvalid maxRounds vmax train0 valid0 evs = pre ++ c :: post →
+      c.n = pre.length ∧ c.idx = c.n + 1 ∧ c.ntrain = ntrain ∧ c.nvalid = nvalid ∧
+      (post ≠ [] → (done eps pat (stateAfter eps pat (init vmax) pre) c).2 = false)) := by
+  unfold fitLoop fitCalls
+  dsimp only
+  generalize hc : ({ train := train0, valid := valid0, n := 0, ntrain := ntrain, nvalid := nvalid, idx := 1 } : Call α) = c
+  have hcn : c.n = 0 := by rw [← hc]
+  have hci : c.idx = c.n + 1 := by rw [← hc]
+  have hct : c.ntrain = ntrain := by rw [← hc]
+  have hcv : c.nvalid = nvalid := by rw [← hc]
+  by_cases hd : (done eps pat (init vmax) c).2 = true
+  · rw [if_pos hd, if_pos hd]
+    refine ⟨rfl, ?_⟩
+    intro pre d post h
+    rcases pre with _ | ⟨p, pre⟩
+    · simp only [List.nil_append, List.cons.injEq] at h
+      obtain ⟨h1, h2⟩ := h
+      subst h1; subst h2
+      exact ⟨by simpa using hcn, hci, hct, hcv, fun hne => absurd rfl hne⟩
+    · simp at h
+  · rw [if_neg hd, if_neg hd]
+    obtain ⟨i1, i2⟩ := loop_calls eps pat ntrain nvalid (evs.take maxRounds)
+      { learners := ([] : List L), es := (done eps pat (init vmax) c).1 }
+    refine ⟨by rw [i1]; rfl, ?_⟩
+    intro pre d post h
+    rcases pre with _ | ⟨p, pre⟩
+    · simp only [List.nil_append, List.cons.injEq] at h
+      obtain ⟨h1, _⟩ := h
+      subst h1
+      exact ⟨by simpa using hcn, hci, hct, hcv, fun _ => by simpa [stateAfter] using hd⟩
+    · simp only [List.cons_append, List.cons.injEq] at h
+      obtain ⟨h1, h2⟩ := h
+      subst h1
+      obtain ⟨j1, j2, j3, j4, j5⟩ := i2 pre d post h2
+      refine ⟨?_, j2, j3, j4, ?_⟩
+      · rw [j1]; simp
+      · intro hne; exact j5 hne
+
+/-! ### `loopTrace` is `loop` with its intermediate states -/
+
+theorem loop_eq_loopTrace_last (eps : α) (pat ntrain nvalid : Nat) (evs : List (RoundEv L α)) :
+    ∀ st : LoopSt L α, loop eps pat ntrain nvalid st evs =
+      (((loopTrace eps pat ntrain nvalid st evs).getLast?).map (·.1)).getD st := by
+  induction evs with
+  | nil => intro st; rfl
+  | cons ev rest ih =>
+    intro st
+    unfold loop loopTrace
+    by_cases hd : (step eps pat ntrain nvalid st ev).2 = true
+    · rw [if_pos hd, if_pos hd]; rfl
+    · rw [if_neg hd, if_neg hd, ih]
+      cases hl : loopTrace eps pat ntrain nvalid (step eps pat ntrain nvalid st ev).1 rest with
+      | nil => simp
+      | cons a l =>
+        obtain ⟨x, hx⟩ : ∃ x, (a :: l).getLast? = some x := by
+          cases h : (a :: l).getLast? with
+          | none => simp at h
+          | some x => exact ⟨x, rfl⟩
+        simp [hx]
+
+/-- every executed iteration but the last one did not leave the loop, and no more iterations are executed than events exist -/
+theorem loopTrace_flags (eps : α) (pat ntrain nvalid : Nat) (evs : List (RoundEv L α)) :
+    ∀ st : LoopSt L α, (loopTrace eps pat ntrain nvalid st evs).length ≤ evs.length ∧
+      ∀ pre r post, loopTrace eps pat ntrain nvalid st evs = pre ++ r :: post → post ≠ [] → r.2 = false := by
+  induction evs with
+  | nil => intro st; exact ⟨Nat.le_refl _, fun pre r post h => by simp [loopTrace] at h⟩
+  | cons ev rest ih =>
+    intro st
+    unfold loopTrace
+    by_cases hd : (step eps pat ntrain nvalid st ev).2 = true
+    · rw [if_pos hd]
+      refine ⟨by simp, ?_⟩
+      intro pre r post h hne
+      rcases pre with _ | ⟨p, pre⟩
+      · simp only [List.nil_append, List.cons.injEq] at h; exact absurd h.2.symm hne
+      · simp at h
+    · rw [if_neg hd]
+      obtain ⟨i1, i2⟩ := ih (step eps pat ntrain nvalid st ev).1
+      refine ⟨by simp only [List.length_cons]; omega, ?_⟩
+      intro pre r post h hne
+      rcases pre with _ | ⟨p, pre⟩
+      · simp only [List.nil_append, List.cons.injEq] at h
+        rw [← h.1]; simpa using hd
+      · simp only [List.cons_append, List.cons.injEq] at h
+        exact i2 pre r post h.2 hne
+
+/-! ### the choice of the weak learner -/
+
+/-- the scan over the prototypes from an accumulator `(b, ow)`: the result is the accumulator when no score is below `b`;
+    otherwise it is the **first** candidate whose score is the minimum, and that score is below `b` -/
+theorem pickBest_go (cands : List (α × L)) :
+    ∀ (b : α) (ow : Option L),
+      let r := cands.foldl (fun (b : α × Option L) c => if c.1 < b.1 then (c.1, some c.2) else b) (b, ow)
+      (r = (b, ow) ∧ ∀ c ∈ cands, ¬ c.1 < b) ∨
+      (∃ pre s w post, cands = pre ++ (s, w) :: post ∧ r = (s, some w) ∧ s < b ∧ (∀ c ∈ pre, s < c.1) ∧ ∀ c ∈ post, s ≤ c.1) := by
+  induction cands with
+  | nil => intro b ow; exact Or.inl ⟨rfl, by simp⟩
+  | cons c cs ih =>
+    intro b ow
+    simp only [List.foldl_cons]
+    by_cases hc : c.1 < b
+    · rw [if_pos hc]
+      rcases ih c.1 (some c.2) with ⟨e, hall⟩ | ⟨pre, s, w, post, e1, e2, h1, h2, h3⟩
+      · exact Or.inr ⟨[], c.1, c.2, cs, rfl, e, hc, by simp, fun d hd => not_lt.mp (hall d hd)⟩
+      · refine Or.inr ⟨c :: pre, s, w, post, by rw [e1]; rfl, e2, lt_trans h1 hc, ?_, h3⟩
+        intro d hd
+        rcases List.mem_cons.mp hd with hd | hd
+        · rw [hd]; exact h1
+        · exact h2 d hd
+    · rw [if_neg hc]
+      rcases ih b ow with ⟨e, hall⟩ | ⟨pre, s, w, post, e1, e2, h1, h2, h3⟩
+      · refine Or.inl ⟨e, ?_⟩
+        intro d hd
+        rcases List.mem_cons.mp hd with hd | hd
+        · rw [hd]; exact hc
+        · exact hall d hd
+      · refine Or.inr ⟨c :: pre, s, w, post, by rw [e1]; rfl, e2, h1, ?_, h3⟩
+        intro d hd
+        rcases List.mem_cons.mp hd with hd | hd
+        · rw [hd]; exact lt_of_lt_of_le h1 (not_lt.mp hc)
+        · exact h2 d hd
 
 theorem foldl_add_eq (l : List α) (a : α) : l.foldl (· + ·) a = a + l.sum := by
   induction l generalizing a with
